@@ -348,3 +348,37 @@ func (p *Prog) Helpers(level int) []string {
 	}
 	return q.Inlined
 }
+
+// HelperCallees maps each helper name (as listed by Helpers) to the helper names its body calls statically.
+func (p *Prog) HelperCallees(helpers []string) map[string][]string {
+	isHelper := map[string]bool{}
+	for _, h := range helpers {
+		isHelper[h] = true
+	}
+	out := map[string][]string{}
+	for _, fn := range p.Funcs {
+		if fn.Parent() != nil {
+			continue
+		}
+		name := p.QName(fn)
+		for _, f := range WithAnon(fn) {
+			AllInstrs(f, func(in ssa.Instruction) {
+				call, ok := in.(*ssa.Call)
+				if !ok || call.Call.IsInvoke() {
+					return
+				}
+				g, ok := call.Call.Value.(*ssa.Function)
+				if !ok {
+					return
+				}
+				gn := p.QName(g)
+				for _, cand := range []string{gn, gn + "@" + name} {
+					if isHelper[cand] {
+						out[name] = append(out[name], cand)
+					}
+				}
+			})
+		}
+	}
+	return out
+}
